@@ -1,0 +1,8 @@
+//go:build verif
+
+// Verification hooks (build tag `verif` only). Add-only; no behaviour change.
+
+package workflow
+
+// SetParentForVerif is role.setParent (workflow.Load does this for the root role).
+func SetParentForVerif(role Role, parent Updatable) { role.setParent(parent) }
